@@ -207,6 +207,11 @@ def runJudge (body : List String) : List String :=
     match toks l with
     | "expect" :: ts => some (parseExpect ts)
     | _ => none
+  let has (w : String) := input.any fun l => l.startsWith w
+  -- a case without its set-up lines is not an observation about C18 (keeps the shrinker honest)
+  if (has "load " && !has "file ") ||
+     (!exps.isEmpty && !(has "load " && has "file " && (has "apply " || exps.any fun e => e.kind == "init"))) then
+    ["bad setup incomplete-case"] else
   match judgeEv exps (impl.map parseObs) with
   | [] => ["ok"]
   | vs => vs.map (fun v => s!"bad {v}")
